@@ -195,7 +195,11 @@ func execC04ExtMsg(in sx.V) sx.V {
 
 func c04Spec(c *Ctx, fam, schema string, ct *c03Type, v sx.V) {
 	in := sx.L(sx.A(schema), sx.Str(ct.name), ct.d.Sx(), v)
-	c.Emit("c04.spec", in, c03Class(fam+"|"+schema, ct, v))
+	cls := fam + "|" + schema + "|" + kindName(ct.d)
+	if schema == "prim" {
+		cls = c03Class(fam+"|"+schema, ct, v)
+	}
+	c.Emit("c04.spec", in, cls)
 }
 
 func genC04(c *Ctx) {
@@ -254,6 +258,17 @@ func genC04(c *Ctx) {
 			if out.String() != fresh.String() {
 				c.Fail("c04.cur", in, "cursor-"+ct.name, "the cell tlb.Marshal produces for "+ct.name+" depends on a read cursor inside the value")
 			}
+		}
+	}
+	// 2d. text: length-prefixed and snake text with multi-byte UTF-8 (2, 3, 4 byte runes): the
+	//     length prefix counts bytes, the chain splits on bit boundaries, whatever the characters
+	for _, name := range c03Names {
+		ct := c03Types[name]
+		if !ct.ext {
+			continue
+		}
+		for i := 0; i < c.Scale(20, 250); i++ {
+			c03Case(c, "text", ct, c03RandValue(ct, c.R))
 		}
 	}
 	// 2c. exotic cells (library, pruned branch, Merkle proof / update) through every boc.Cell
